@@ -105,6 +105,11 @@ def check_roundtrip(lx: LayoutExtractor, rep, prefix='C01'):
              'exactly its header): no presence test asks for more bytes than that', 1)
     rep.check(not p14, R('O14'), 'pdu+userdataitems:optional-children', '', '%d presence test(s) on remaining bytes, none stricter than the '
               'child\'s header' % n14, '; '.join(p14))
+    p15, n15 = falsy_default_problems(lx)
+    rep.rule(R('O15'), 'a numeric field keeps the value 0: no ``field or K`` with a non-zero constant K on a value that is packed into '
+             'the item (0 is false, so it would be sent -- or kept after decoding -- as K; "missing" is ``is None``)', 1)
+    rep.check(not p15, R('O15'), 'pdu+userdataitems:numeric-defaults', '', '%d packed field(s) examined, none defaulted by truth' % n15,
+              '; '.join(p15))
     reachable = set()
     type_of = {}
     skipped_layouts = []
@@ -395,6 +400,11 @@ def check_wire(lx: LayoutExtractor, rep, prefix='C02', only=None, rule_map=None)
                  'were read after the length field are part of what the length counts', 1)
         rep.check(not p7, R('L7'), 'pdu+userdataitems:seek-targets', '', '%d end-of-item jump(s), each behind exactly the declared length' % n7,
                   '; '.join(p7))
+        p8, n8 = falsy_default_problems(lx)
+        rep.rule(R('L8'), 'a numeric field is sent as it is given, 0 included: no ``field or K`` (K a non-zero constant) on a value that is '
+                 'packed into the item (same analysis as C01.O15)', 1)
+        rep.check(not p8, R('L8'), 'pdu+userdataitems:numeric-defaults', '', '%d packed field(s) examined, none defaulted by truth' % n8,
+                  '; '.join(p8))
     for name, spec in OR.LAYOUTS.items():
         if only is not None and name not in only:
             continue
@@ -956,6 +966,36 @@ def seek_target_problems(lx: LayoutExtractor) -> Tuple[List[str], int]:
                                  'the length field ends at offset %d and counts everything behind it: the target is %d byte(s) %s'
                                  % (c.name, line, x.args[0].id, ast.unparse(expr), q, vals[0], length_name, length_end,
                                     abs(vals[0] - length_end), 'too far (the next item is entered in its middle)' if vals[0] > length_end else 'short'))
+    return sorted(set(probs)), n
+
+
+def falsy_default_problems(lx: LayoutExtractor) -> Tuple[List[str], int]:
+    """``x or K`` (K a non-zero integer constant) applied to a value a codec class packs with ``struct``: the legal value 0 is
+    replaced by K -- in the constructor (what decode() returns then differs from the bytes), or on the way into pack() (what is
+    sent differs from the field).  -> (problems, number of packed names examined)"""
+    probs: List[str] = []
+    n = 0
+    for c in lx.classes.values():
+        packed = set()
+        for fn in c.methods.values():
+            for x in ast.walk(fn.node):
+                if isinstance(x, ast.Call) and isinstance(x.func, ast.Attribute) and x.func.attr in ('pack', 'pack_into'):
+                    for a in x.args:
+                        for y in ast.walk(a):
+                            if isinstance(y, ast.Attribute) and isinstance(y.value, ast.Name) and y.value.id == 'self':
+                                packed.add(y.attr)
+        n += len(packed)
+        if not packed:
+            continue
+        for fn in c.methods.values():
+            for x in ast.walk(fn.node):
+                if isinstance(x, ast.BoolOp) and isinstance(x.op, ast.Or) and len(x.values) == 2 \
+                        and isinstance(x.values[1], ast.Constant) and type(x.values[1].value) is int and x.values[1].value != 0:
+                    v0 = x.values[0]
+                    nm = v0.attr if isinstance(v0, ast.Attribute) else v0.id if isinstance(v0, ast.Name) else None
+                    if nm in packed:
+                        probs.append('%s: ``%s`` -- %s is packed as a number and 0 is a value it may have (%s.%s line %d)'
+                                     % (fn.loc(x), ast.unparse(x), nm, c.name, fn.name, x.lineno))
     return sorted(set(probs)), n
 
 
